@@ -94,6 +94,18 @@ func checkC16(c *core.Ctx, r *core.Report) {
 						now = true
 					} else if o.Obj != nil {
 						payload = true
+					} else if call2, ok := o.Val.(*ssa.Call); ok {
+						// a call through a function value (the extractor picked per signal type): the
+						// functions it can be are what matters
+						targets := funcValues(call2.Call.Value)
+						for _, t := range targets {
+							if t.Object() != nil && isNowSource(t.Object()) {
+								now = true
+							}
+						}
+						if len(targets) > 0 {
+							payload = true
+						}
 					}
 				case "field", "param":
 					payload = true
